@@ -21,6 +21,8 @@ ASSUME = [
     "X25519 and AES-GCM are trusted: without the keys no other box opens (symbolic crypto in the spec) EXCEPT under the degenerate all-zero secret of the small-order points, which is modelled (tamper class loworder) and constructed (7 encodings x bit 255, both transports); other public keys that give the client's secret (non-canonical u >= 2^255-19 of ordinary points) occur with probability 2^-250 and are not constructed",
     "user histories: a database user authorised at its first connection and revoked since (deleted / expired / UpCredit 0 / DownCredit 0) - or not (control) - reconnects with a NEW session id while its record is cached session-less (closing goroutine parked at hook user.closesession.unlocked) or with the first session still up; revoked => no handshake reply (relay or no answer), control => reply; a connection that joins an EXISTING session id of a cached record is not re-authorised by the code and is not demanded (C16)",
     "the window is read on the sealed whole-second timestamp against State.WorldState.Now: |stamp - now| < 180 s, concretised as 0, +-1 s, +-60 s, +-179 s, +-(180 s - 1 ns) inside; +-180 s (edge); +-(180 s + 1 ns), +-181 s, +-360 s, +-24 h outside",
+    "time: the spec's offsets are exact integers in ticks of tolerance/2 (edge classes -3..3, then 1 day, 1 / 100 / 292 / 293 / 300 / 584 years and Big = beyond, both signs); the harness decides inside/outside in exact big.Int nanosecond arithmetic, maps the distance to the class and requires the table to agree; stamps 0, 1, -1, MaxInt64, MinInt64, +-2^62, 2^40, MaxInt32, MaxUint32, now +- 2^63 ns +- 1 s and random 64-bit values are sealed by the real client (its clock set to exactly that second)",
+    "server configuration: probes of the configured set run against servers built by ParseConfig/InitState from a JSON file, with / without AdminUID x 0 / 1 / 3 BypassUID entries (16-byte entries); probe UIDs: 16 x 0x00, 16 x 0xff, a bypass UID, the admin UID, three one-byte variants of a bypass UID, an unlisted random UID; authorised without a database = the configured set exactly",
     "user states are seeded in a real bolt database (ok, UpCredit 0, DownCredit 0, expired 1000 s ago, expired in 1970, absent) or the bypass / admin configuration; a user that is already active is not re-authenticated (C16's subject): every presentation starts from a panel without that user's session unless a previous dispatch goroutine never returned (purged)",
     "an admin session (admin UID, session id 0) carries no proxy traffic: the 'method it serves' clause is applied to proxy sessions only (dispatcher.go tests the admin gate before the ProxyBook); the occurrences are counted in harness_stats obs:admin_api_with_unserved_method and become a violation with VERIF_C07_STRICT_ADMIN_METHOD=1",
     "changes outside the sealed block and outside the 255 significant bits of the random (SNI, other extensions, length/type fields, other HTTP headers, invalid base64) may be accepted or redirected; if accepted the identity must be the sealed one; replays of such copies are C08's subject, byte-exact relaying C09's",
@@ -28,7 +30,7 @@ ASSUME = [
 ]
 
 SOUND_DEVS = ["WindowInclusive", "NoTimestampCheck", "IgnoreDecryptError", "SkipMethodCheck", "SkipUidCheck", "AdminNoSid",
-              "LowOrderAccepted", "SkipRecheckSessionless"]
+              "LowOrderAccepted", "SkipRecheckSessionless", "SkewSubSaturates", "ZeroUidBypassNoAdmin"]
 JVM = {"JAVA_TOOL_OPTIONS": "-Xss64m -XX:ParallelGCThreads=2 -XX:TieredStopAtLevel=1"}
 INV = "Agreement KeyAgreement Soundness AdminGate AdminReach"
 
@@ -40,7 +42,7 @@ def _sub(scope, maxt, dev="{{}}", inv=INV, w=2):
 def neg_matrix(ctx, flags):
     """One TLC run in which every behaviour carries one deviation flag; returns {flag: set(invariants it breaks)}."""
     dev = "{" + ",".join('{"%s"}' % f for f in flags) + "}"
-    r = lib.run_tlc(ctx, "HandshakeNeg", "HandshakeNeg.cfg", _sub("neg", 1, dev), tag="neg_matrix", workers=1, timeout=900, env=JVM)
+    r = lib.run_tlc(ctx, "HandshakeNeg", "HandshakeNeg.cfg", _sub("neg7", 1, dev), tag="neg_matrix", workers=1, timeout=900, env=JVM)
     lib.require_ok(r, "neg_matrix")
     m = re.search(r'<<"NEGMATRIX", (".*")>>', r.out)
     if not m:
@@ -104,6 +106,8 @@ def run(ctx):
     ctx.log("replay: %d real clients, %d single-bit flips, %d multi-byte edits, %d environment presentations on %d base packets; %.1fs" % (
         sum(v for k, v in gs.items() if k.startswith("clients:")), gs.get("single_bit_flips", 0), gs.get("multi_byte_edits", 0),
         gs.get("environment_presentations", 0), gs.get("base_packets", 0), gs.get("replay_wall_ms", 0) / 1000.0))
+    ctx.log("far-away stamps: %d presentations; server configurations: %s" % (
+        gs.get("far_stamp_presentations", 0), {k[21:]: v for k, v in sorted(gs.items()) if k.startswith("configuration_probes:")}))
     ctx.log("small-order forgeries: %d; histories: %s" % (gs.get("small_order_forgeries", 0),
                                                           {k[16:]: v for k, v in sorted(gs.items()) if k.startswith("history_outcome:")}))
     ctx.log("outcomes: %s" % {k: v for k, v in sorted(gs.items()) if k.startswith("outcome:") or k.startswith("client_outcome:")})
@@ -139,7 +143,7 @@ def run(ctx):
         "abstract_cases_in_table": len(table),
         "verdict_classes": by,
         "exhaustive": True,
-        "checker_cmd": "tlc Handshake.tla / HandshakeNeg.tla (8 deviation flags) / HandshakeGen.tla (Scope=sound) + go test -run TestVerifC07Replay",
+        "checker_cmd": "tlc Handshake.tla / HandshakeNeg.tla (10 deviation flags) / HandshakeGen.tla (Scope=sound) + go test -run TestVerifC07Replay",
         "harness_stats": gs,
     }
     return lib.finish(ctx, LEVEL, cov, ASSUME)
